@@ -4,17 +4,13 @@ CONSTANTS
   Externals = {3}
   Relays = {1, 2}
   Nodes = {1, 2}
-  DocIds = {1, 2, 3, 4, 5, 6}
+  DocIds = {1, 2, 3, 5, 6}
   FailKinds = {"error", "malformed", "empty"}
-  Ops = {}
-  MaxInFlight = 0
+  Ops = {1, 2, 3}
+  MaxInFlight = 2
   AuctionImpl = "intended"
-  Resolution = "locked"
+  Resolution = "snapshot"
   MaxRounds = 0
-  ScenLen = 9
-  MaxSignFail = 1
-  History = FALSE
-  Matrix = FALSE
-  Script = "none"
-INVARIANTS Emit
+  Family = "heldfetch"
+INVARIANTS Emit KeepsLastGood AnswersInForce LockBalanced LockAccounting
 CHECK_DEADLOCK FALSE
